@@ -2634,6 +2634,21 @@ impl<T: Storage> Raft<T> {
         if snap.get_metadata().index < self.raft_log.committed {
             return false;
         }
+        if self.pending_request_snapshot != INVALID_INDEX
+            && snap.get_metadata().index < self.pending_request_snapshot
+        {
+            // `Storage::snapshot` never returns a snapshot below the requested index, so
+            // this one is not the reply to the pending request but a stale or duplicated
+            // message. Installing it unconditionally (as a requested snapshot is) would
+            // drop entries this node has already acknowledged.
+            info!(
+                self.logger,
+                "ignored snapshot older than the requested one";
+                "snapshot_index" => snap.get_metadata().index,
+                "request_index" => self.pending_request_snapshot,
+            );
+            return false;
+        }
         if self.state != StateRole::Follower {
             // This is defense-in-depth: if the leader somehow ended up applying a
             // snapshot, it could move into a new term without moving into a
